@@ -11,6 +11,9 @@
 #include <unistd.h>
 #include "ovni.h"
 #include "path.h"
+#ifdef OVNI_VERIF
+#include <stdlib.h>
+#endif
 
 static int
 check_stream_header(struct stream *stream)
@@ -58,6 +61,36 @@ load_stream_fd(struct stream *stream, int fd)
 		err("stream %s is empty", stream->path);
 		return -1;
 	}
+
+#ifdef OVNI_VERIF
+	/* Verification hook: when OVNI_VERIF_HEAPBUF is set, load the stream
+	 * into an exact-size heap buffer instead of mapping the file, so that
+	 * AddressSanitizer sees any access outside the loaded stream. Not for
+	 * ovnisort, which relies on the mapping observing its pwrite()s. */
+	if (getenv("OVNI_VERIF_HEAPBUF") != NULL) {
+		size_t hsize = (size_t) st.st_size;
+		uint8_t *hbuf = malloc(hsize);
+		if (hbuf == NULL) {
+			err("malloc failed:");
+			return -1;
+		}
+
+		size_t hdone = 0;
+		while (hdone < hsize) {
+			ssize_t hn = pread(fd, hbuf + hdone, hsize - hdone, (off_t) hdone);
+			if (hn <= 0) {
+				err("pread failed:");
+				free(hbuf);
+				return -1;
+			}
+			hdone += (size_t) hn;
+		}
+
+		stream->buf = hbuf;
+		stream->size = st.st_size;
+		return 0;
+	}
+#endif
 
 	int prot = PROT_READ | PROT_WRITE;
 	stream->buf = mmap(NULL, (size_t) st.st_size, prot, MAP_PRIVATE, fd, 0);
